@@ -362,6 +362,11 @@ FAMILIES = {
     "flow_with_brackets": lambda n: "K::" + "→".join(["A[x,y]"] * n) + "\n",
     "many_percent": lambda n: "K::[" + ",".join(["60%"] * n) + "]\n",
     "long_identifier": lambda n: "K::" + "a" * (n * 10) + "\n",
+    # a string that is opened and never closed, followed by escape pairs: the case in which a string pattern with overlapping
+    # alternatives backtracks exponentially (time inside ONE regex match is invisible to line counts: the CPU watchdog decides)
+    "unclosed_quote_escape_pairs": lambda n: 'K::v\nPATH::"C:' + "\\a" * n + "\n",
+    "unclosed_quote_escape_pairs_eof": lambda n: 'PATH::"' + "\\\"" * n,
+    "unclosed_triple_quote_escapes": lambda n: 'K::"""' + "\\n" * n + "\n",
     "many_vs": lambda n: "K::[" + ",".join(["AvsB"] * n) + "]\n",
     "many_triple_quotes": lambda n: "".join(f'K{i}::"""a\nb"""\n' for i in range(n)),
     "many_meta_fields": lambda n: "===D===\nMETA:\n" + "".join(f"  F{i}::v\n" for i in range(n)) + "---\nK::v\n===END===\n",
@@ -453,6 +458,12 @@ def check_depth(case) -> Res:
         text = "§1::S" + "[" * d + "a" + "]" * d + "\n  K::v\n"
     elif shape == "unclosed":
         text = "K::" + "[" * d + "a\n"
+    elif shape == "meta_value":
+        text = "===D===\nMETA:\n  TYPE::X\n  M::" + "[" * d + "a,b" + "]" * d + "\n---\nK::v\n===END===\n"
+    elif shape == "nested_meta_value":
+        text = "===D===\nMETA:\n  TYPE::X\n  N:\n    M::" + "[" * d + "a" + "]" * d + "\n---\nK::v\n===END===\n"
+    elif shape == "meta_value_unclosed":
+        text = "META:\n  M::" + "[" * d + "a\n"
     else:
         raise KeyError(shape)
     r = read_all(text, list(case))
@@ -494,7 +505,8 @@ def run(ctx):
     ctx.explore("scaling", Product(sorted(FAMILIES), ["parse_with_warnings", "parse", "emit", "write_lenient_dry"], [n]),
                 check_scaling, chunk=1)
     depths = [1, 5, 50, 98, 99, 100, 101, 150, 400, 1500, 5000]
-    ctx.explore("nesting.depth", Product(["list", "constructor", "inline_map", "section_annotation", "unclosed"], depths),
+    depths = sorted(set(depths + [2, 3, 4, 6, 7, 10]))      # the deep-nesting WARNING threshold (5) is a special case of its own
+    ctx.explore("nesting.depth", Product(["list", "constructor", "inline_map", "section_annotation", "unclosed", "meta_value", "nested_meta_value", "meta_value_unclosed"], depths),
                 check_depth, chunk=1)
     d = _T.get("dir")
     if d:
